@@ -71,8 +71,10 @@ K_DICT, K_LIST, K_SET, K_INST = 1, 2, 3, 4
 # uninterpreted helpers shared by all specs
 issub = z3.Function("issub", I, I, B)            # subclass relation on class ids
 objcls = z3.Function("objcls", I, I)             # class id of an opaque object
-SortedOf = z3.Function("SortedOf", VSet, VSeq)   # sorted(list(set)) : a function of the *set*
-SetOfSeq = z3.Function("SetOfSeq", VSeq, VSet)   # set(seq)
+VArr = z3.ArraySort(z3.IntSort(), V)               # element array of a list / order oracle
+SortedArr = z3.Function("SortedArr", VSet, VArr)    # sorted(set): a function of the *set* (order-free)
+SetOfArr = z3.Function("SetOfArr", VArr, z3.IntSort(), VSet)   # elements of arr[0..n)
+TupToArr = z3.Function("TupToArr", VSeq, VArr)
 StrOf = z3.Function("StrOf", V, z3.StringSort())  # str(x) / f"{x}" for non-str x
 ReprOf = z3.Function("ReprOf", V, z3.StringSort())
 vlt = z3.Function("vlt", V, V, B)                # '<' on values of unknown/str type (total order on str)
@@ -88,16 +90,19 @@ def fresh(prefix, sort=None):
 class Heap:
     """All heap components are z3 terms; `fld`/`has` map attribute name -> array."""
 
-    ARR = ("kind", "cls", "ddom", "dval", "dord", "dlen", "lseq", "sdom", "slen")
+    ARR = ("kind", "cls", "ddom", "dval", "dord", "dlen", "larr", "llen", "sdom", "slen")
 
-    def __init__(self, tag="h0"):
+    def __init__(self, tag="h0", floor=0):
+        self.floor = floor      # references > floor did not exist when this heap's base arrays were named
+        self.axioms = []
         self.kind = z3.Const(f"{tag}.kind", z3.ArraySort(I, I))
         self.cls = z3.Const(f"{tag}.cls", z3.ArraySort(I, I))
         self.ddom = z3.Const(f"{tag}.ddom", z3.ArraySort(I, VSet))
         self.dval = z3.Const(f"{tag}.dval", z3.ArraySort(I, VMap))
-        self.dord = z3.Const(f"{tag}.dord", z3.ArraySort(I, VSeq))
+        self.dord = z3.Const(f"{tag}.dord", z3.ArraySort(I, VArr))
         self.dlen = z3.Const(f"{tag}.dlen", z3.ArraySort(I, I))
-        self.lseq = z3.Const(f"{tag}.lseq", z3.ArraySort(I, VSeq))
+        self.larr = z3.Const(f"{tag}.larr", z3.ArraySort(I, VArr))
+        self.llen = z3.Const(f"{tag}.llen", z3.ArraySort(I, I))
         self.sdom = z3.Const(f"{tag}.sdom", z3.ArraySort(I, VSet))
         self.slen = z3.Const(f"{tag}.slen", z3.ArraySort(I, I))
         self.fld = {}
@@ -111,12 +116,17 @@ class Heap:
         h.fld = dict(self.fld)
         h.has = dict(self.has)
         h.tag = self.tag
+        h.floor = self.floor
+        h.axioms = self.axioms
         return h
 
     def field(self, name):
         if name not in self.fld:
             self.fld[name] = z3.Const(f"{self.tag}.fld.{name}", z3.ArraySort(I, V))
             self.has[name] = z3.Const(f"{self.tag}.has.{name}", z3.ArraySort(I, B))
+            r = z3.Const("r!has", I)
+            self.axioms.append(z3.ForAll([r], z3.Implies(r > self.floor, z3.Not(z3.Select(self.has[name], r))),
+                                         patterns=[z3.Select(self.has[name], r)]))
         return self.fld[name]
 
     def hasf(self, name):
@@ -142,6 +152,10 @@ def merge_heaps(c, h1, h2):
     for n in names:
         x, y = h1.field(n), h2.field(n)
         h.fld[n] = x if x.eq(y) else z3.If(c, x, y)
+        if h2.axioms is not h.axioms:
+            for a in h2.axioms:
+                if not any(a.eq(b) for b in h.axioms):
+                    h.axioms.append(a)
         x, y = h1.hasf(n), h2.hasf(n)
         h.has[n] = x if x.eq(y) else z3.If(c, x, y)
     return h
@@ -150,3 +164,102 @@ def merge_heaps(c, h1, h2):
 def Nth(seq, i):
     """element i of a z3 sequence (seq.nth)"""
     return seq[i]
+
+
+EMPTY_ARR = z3.K(z3.IntSort(), V.none)
+
+
+class Sq:
+    """Host-level immutable sequence value: element array + length (lists, order oracles, views).
+    Arrays make element access a Select, so quantified invariants instantiate by E-matching."""
+
+    def __init__(self, arr, n):
+        self.arr = arr
+        self.n = n if isinstance(n, z3.ExprRef) else z3.IntVal(n)
+
+    @staticmethod
+    def of(items):
+        arr = EMPTY_ARR
+        items = list(items)
+        for i, x in enumerate(items):
+            arr = z3.Store(arr, i, x)
+        return Sq(arr, z3.IntVal(len(items)))
+
+    @staticmethod
+    def from_tuple(t):
+        """Sq of a V.tup value"""
+        seq = z3.simplify(V.items(t))
+        units = _seq_units(seq)
+        if units is not None:
+            return Sq.of(units)
+        return Sq(TupToArr(seq), z3.Length(seq))
+
+    def at(self, i):
+        return z3.Select(self.arr, i)
+
+    def units(self):
+        n = z3.simplify(self.n)
+        if z3.is_int_value(n) and n.as_long() <= 64:
+            return [z3.simplify(z3.Select(self.arr, i)) for i in range(n.as_long())]
+        return None
+
+    def append(self, x):
+        return Sq(z3.Store(self.arr, self.n, x), self.n + 1)
+
+    def concat(self, other):
+        u = other.units()
+        if u is not None:
+            cur = self
+            for x in u:
+                cur = cur.append(x)
+            return cur
+        i = z3.Int("i!cat")
+        return Sq(z3.Lambda([i], z3.If(i < self.n, z3.Select(self.arr, i), z3.Select(other.arr, i - self.n))),
+                  self.n + other.n)
+
+    def slice(self, a, b):
+        i = z3.Int("i!sl")
+        return Sq(z3.Lambda([i], z3.Select(self.arr, i + a)), b - a)
+
+    def to_tuple(self):
+        u = self.units()
+        if u is None:
+            return V.tup(z3.Function("ArrToTup", VArr, z3.IntSort(), VSeq)(self.arr, self.n))
+        return vtup(u)
+
+    def set_term(self):
+        u = self.units()
+        if u is not None:
+            d = z3.K(V, z3.BoolVal(False))
+            for x in u:
+                d = z3.Store(d, x, True)
+            return d
+        return SetOfArr(self.arr, self.n)
+
+    def eq(self, other):
+        i = z3.Int("i!sqeq")
+        ua, ub = self.units(), other.units()
+        if ua is not None and ub is not None:
+            if len(ua) != len(ub):
+                return z3.BoolVal(False)
+            return z3.And([a == b for a, b in zip(ua, ub)]) if ua else z3.BoolVal(True)
+        return z3.And(self.n == other.n,
+                      z3.ForAll([i], z3.Implies(z3.And(i >= 0, i < self.n), self.at(i) == other.at(i))))
+
+
+def _seq_units(seq):
+    s = z3.simplify(seq)
+    out = []
+
+    def walk(t):
+        if z3.is_app(t):
+            k = t.decl().kind()
+            if k == z3.Z3_OP_SEQ_EMPTY:
+                return True
+            if k == z3.Z3_OP_SEQ_UNIT:
+                out.append(t.arg(0))
+                return True
+            if k == z3.Z3_OP_SEQ_CONCAT:
+                return all(walk(c) for c in t.children())
+        return False
+    return out if walk(s) else None
